@@ -107,10 +107,17 @@ def SingleWriter (gs ws : List (List Nat)) : Prop :=
   ∀ ks, ks ∈ chunkKeys gs → ∃ cs rs, getItemN ws cs = some rs ∧ ks ∈ writesN gs rs ∧ wholeN gs rs ks = true ∧
     ∀ cs' rs', getItemN ws cs' = some rs' → ks ∈ writesN gs rs' → cs' = cs
 
+/-- `x` is a chunk boundary of `g` (an entry of `_cumsum(g, initial_zero=True)`). -/
+def IsBound (g : List Nat) (x : Nat) : Prop := ∃ j, j ≤ g.length ∧ off g j = x
+
+/-- grid `s` refines grid `w`: every boundary of `w` is a boundary of `s`. -/
+def Refines (s w : List Nat) : Prop := ∀ c, c ≤ w.length → ∃ j, j ≤ s.length ∧ off s j = off w c
+
 /-! ### split_chunksizes -/
 
 /-- the array `c` of `split_chunksizes`: `union1d(arange(0,n,sc), arange(0,n,tc))` with `n` appended —
-all `x ≤ n` that are `n` itself or a multiple of `sc` or of `tc` below `n`, in increasing order. -/
+all `x ≤ n` that are `n` itself or a multiple of `sc` or of `tc` below `n`, in increasing order
+(`sc = 0` / `tc = 0`, a ZeroDivisionError in `np.arange`, is not modelled: every statement has `0 < sc, tc`). -/
 def splitBounds (n sc tc : Nat) : List Nat :=
   (List.range (n + 1)).filter (fun x => x == n || x % sc == 0 || x % tc == 0)
 
